@@ -58,7 +58,7 @@ var variants = []string{"plain", "plain", "plain", "panic", "assert", "pre", "po
 	"complimit", "memlimit", "script", "script", "scriptfail", "execfail", "deploy", "deployfail", "deployremove"}
 
 func contractCode(name string) string {
-	return fmt.Sprintf("access(all) contract %s { access(all) var n: Int; access(all) let xs: [Int]; init() { self.n = 1; self.xs = [1, 2, 3] } access(all) fun bump() { self.n = self.n + 1 } }", name)
+	return fmt.Sprintf("access(all) contract %s { access(all) var n: Int; access(all) let xs: [Int]; init() { self.n = 1; self.xs = [1, 2, 3] } access(all) fun bump() { self.n = self.n + 1; self.xs.append(self.n) } access(all) fun fail() { self.n = self.n + 1; panic(\"in call\") } }", name)
 }
 
 // inject rewrites the rendered transaction source according to the variant.
@@ -193,6 +193,22 @@ func main() {
 			ix.Write(Index{First: first + 1, Last: pos, Beh: b.ID, Kind: kind, Variant: variant, Engine: engine,
 				Class: r.Class, Writes: len(r.Writes), Src: src})
 			nexec++
+			if variant == "deploy" && r.Err == nil {
+				// contract function executions (runtime.InvokeContractFunction): one succeeding, one failing
+				for _, fn := range []string{"bump", "fail"} {
+					name := fmt.Sprintf("K%d", b.ID*1000+txi)
+					first := pos
+					emit(Ev{Ev: "Begin", Kind: "call", Ok: true})
+					cr := w.InvokeE(Accts["A1"], name, fn, engine)
+					for _, te := range cr.Trace {
+						emit(Ev{Ev: te.Ev, Ok: te.Ok})
+					}
+					emit(Ev{Ev: "End", Ok: cr.Err == nil})
+					ix.Write(Index{First: first + 1, Last: pos, Beh: b.ID, Kind: "call", Variant: "call-" + fn, Engine: engine,
+						Class: cr.Class, Writes: len(cr.Writes), Src: name + "." + fn + "()"})
+					nexec++
+				}
+			}
 		}
 		return nil
 	})
